@@ -79,6 +79,12 @@ CLAIMED = {
                 "converted; two live instances exporting the same name in both lookup orders; function address before and after an invocation; noop "
                 "static-call mode.",
             "Struct-by-value and callback parameters are covered by C08/C12.", "DESIGN.md 4/C11"),
+    "C14": (MC, "Every history up to the depth bound over 12 concrete lifecycle operations on two sandbox objects of the multi-instance backend (create with a "
+                "symbolic backend result, destroy, malloc, free, register, unregister, invoke by name, get_app_pointer, example-based translation), in "
+                "lock-step with a reference state machine written from the property text: aborts exactly on out-of-order create/destroy/register/lookup, "
+                "backend allocator/free reached only inside the created window, registry finds a sandbox exactly between create and destroy; plus "
+                "re-creation scenarios: registrations and cached symbol addresses of the earlier incarnation are not visible.",
+            "Depth 3 (quick) / 4 (thorough); behaviour after a failed create is don't-care beyond 'unusable'.", "DESIGN.md 4/C14"),
     "C05": (MC, "p+n, p-n, +=, -=, ++/-- (pre/post), p[n], &p[n] for 8 pointee types x integer index types (plain, tainted, tainted_volatile) on LP32/LP16 "
                 "model backends with symbolic region base, pointer and full-width index: returns iff the exact 128-bit address p+/-n*s_guest is inside "
                 "the region and then returns exactly it, else aborts; null aborts.",
